@@ -157,6 +157,25 @@ pub fn run(reg: &[Box<dyn TypeOps>], defaults: &[Option<&'static str>], cfg: &Cf
                 }
             }
         }
+        // … for 2-byte offset types, link offsets around 256 and 512 (S117: a value whose low byte is small — what a byte-wise comparison of a
+        // little-endian offset gets wrong)
+        if let Shape::Flex(e, l) = &sh {
+            if l.size == 2 {
+                let lens: Vec<usize> = match &**e {
+                    Shape::Vec(ee, il) if ee.size() == 1 => (246..=256usize).filter(|n| (*n as u128) <= il.max()).collect(),
+                    Shape::Str(il) => (246..=256usize).chain(502..=512).filter(|n| (*n as u128) <= il.max()).collect(),
+                    _ => vec![],
+                };
+                for n in lens {
+                    let item = match &**e {
+                        Shape::Vec(ee, _) => D::VecIter((0..n).map(|i| gen_sized(ee, &mut Rng::new(i as u64))).collect()),
+                        _ => D::StrFrom(vec![b'a'; n]),
+                    };
+                    let small = gen_init(e, &mut rng, 1).strip_def();
+                    boundary.push(D::FlexIter(vec![small.clone(), item, small]));
+                }
+            }
+        }
         // … and for 2-byte offset types (S103): a string item of almost 64 KiB whose link offset lands on / next to `L::MAX` = 65535, with
         // another item behind it (strings only: a 65 000-element vector is too slow for the model's element-wise rendering). A handful of
         // buffer lengths each.
